@@ -243,6 +243,13 @@ class Concat(Expr):
                 [col for col in get_columns_or_name(frame) if col in columns]
                 for frame in self._frames
             ]
+            if self.axis == 0:
+                # _meta treats a frame without columns as empty, but the rows of
+                # a frame that has none of the columns turn them into floats
+                columns_frame = [
+                    cols or get_columns_or_name(frame)[:1]
+                    for frame, cols in zip(self._frames, columns_frame)
+                ]
             if all(
                 cols == get_columns_or_name(frame)
                 for frame, cols in zip(self._frames, columns_frame)
